@@ -286,6 +286,16 @@ theorem glvlife_ledger_every_history (l sh : Nat) (now : Int) (ops : List Op) :
   have := run_preserves_total ops (init l sh now) (ledger_init l sh now)
   exact ⟨this.long, this.short, this.glv⟩
 
+/-- THE MARKET-TOKEN LEDGERS, for every history: for each of the two markets, the market tokens held by all users, all
+escrows and the GLV vault add up to the market token's supply (`totalMt0`/`totalMt1` are folds over the finite user and
+slot lists; `step_preserves_mt`, then induction) — so the GLV vault never holds tokens that do not exist, and nothing is
+minted or burned outside a deposit, a withdrawal or a shift -/
+theorem glvlife_market_token_ledger_every_history (l sh : Nat) (now : Int) (ops : List Op) :
+    totalMt0 (run (init l sh now) ops).1 = (run (init l sh now) ops).1.mtSupply0 ∧
+    totalMt1 (run (init l sh now) ops).1 = (run (init l sh now) ops).1.mtSupply1 := by
+  have := run_preserves_mt ops (init l sh now) (mtLedger_init l sh now)
+  exact ⟨this.mt0, this.mt1⟩
+
 /-- … one transaction at a time -/
 theorem glvlife_step_preserves_total (L S : Nat) (s : St) (op : Op) (h : Ledger L S s) : Ledger L S (step s op).1 :=
   step_preserves_total s op h
@@ -345,6 +355,8 @@ example : ((run (init 10000 5000 1700000000) (glHist.take 5 ++ [.screate .keeper
     (run (init 10000 5000 1700000000) (glHist.take 5 ++ [.screate .keeper 0 0 1 200 0, .sexec .keeper 0 0 true false 190])).1.glvRec1) = (260, 190) := by decide
 
 example : totalLong (run (init 10000 5000 1700000000) glHist).1 = 20000 ∧ heldGlv (run (init 10000 5000 1700000000) glHist).1 = 250 := by decide
+
+example : totalMt0 (run (init 10000 5000 1700000000) glHist).1 = 810 ∧ (run (init 10000 5000 1700000000) glHist).1.mtSupply0 = 810 := by decide
 
 end GlvLife
 
